@@ -1568,6 +1568,7 @@ func (c *Conn) readHeader(fr *FrameHeader, r *Ctx) error {
 		r.hdrPending = r.hdrPending[:0]
 		r.hdrFields = 0
 		r.hdrRegular = false
+		r.hdrStatus = 0
 	}
 
 	blockStart := fr.Type() == FrameHeaders
@@ -1610,6 +1611,13 @@ func (c *Conn) readHeader(fr *FrameHeader, r *Ctx) error {
 				return errInvalidStatus
 			}
 
+			// exactly one, and none in the trailers
+			if r.hdrStatus != 0 || r.hdrBlocks > 0 {
+				return errInvalidStatus
+			}
+
+			r.hdrStatus = n
+
 			res.SetStatusCode(n)
 
 			continue
@@ -1635,6 +1643,20 @@ func (c *Conn) readHeader(fr *FrameHeader, r *Ctx) error {
 		} else {
 			res.Header.AddBytesKV(hf.KeyBytes(), hf.ValueBytes())
 		}
+	}
+
+	if fr.Flags().Has(FlagEndHeaders) {
+		switch {
+		case r.hdrBlocks > 0:
+			// trailers
+		case r.hdrStatus == 0:
+			// a response without :status is malformed
+			// https://httpwg.org/specs/rfc7540.html#rfc.section.8.1.2.4
+			return errInvalidStatus
+		case r.hdrStatus >= 200:
+			r.hdrBlocks++
+		}
+		// a 1xx block is followed by another block with a :status of its own
 	}
 
 	return nil
